@@ -42,3 +42,76 @@ Theorem pooled_votes_same_effect : forall K ops,
         (effect c = effect (a_body a) \/ (path c <> path (a_body a) /\ sha256 (path c) = sha256 (path (a_body a)))).
 Proof. exact pooled_votes_same_effect_lemma. Qed.
 Print Assumptions pooled_votes_same_effect.
+
+(** ---- second round: what stands in front of Attest, the claim interface, genesis, stale keys ---- *)
+From Paloma Require Import Skyway.ClaimsGate Skyway.ClaimsGateProofs.
+
+(** [pooled_votes_same_effect] for submissions filtered by ANY gate in front of [Attest] — a function of the
+    position in the history, the whole state, the validator and the claim: ValidateBasic in the message router,
+    the msg server's creator / validator checks, additionalPatchChecks against whatever batches are in state at
+    that moment, or anything added later.  No hypothesis on the submissions is left. *)
+Theorem pooled_votes_same_effect_any_gate : forall (g : gate) K ops,
+  (forall v c, In (v, c) ops -> In (c_type c) G.claim_types) ->
+  forall a, In a (atts (run_g g K ops)) ->
+    (exists v0, In (v0, a_body a) ops) /\
+    forall v, In v (a_votes a) ->
+      exists c, In (v, c) ops /\
+        (effect c = effect (a_body a) \/ (path c <> path (a_body a) /\ sha256 (path c) = sha256 (path (a_body a)))).
+Proof. exact pooled_votes_any_gate_lemma. Qed.
+Print Assumptions pooled_votes_same_effect_any_gate.
+
+(** The msg server of the pinned tree with outgoing batches [bs] in state: the stored body and every voter's own
+    claim passed the type's ValidateBasic (table [G.validate_checks]) and, for batch claims,
+    additionalPatchChecks (shape [G.batch_gate]) — and have the same effect. *)
+Theorem msg_server_votes_passed_gate_same_effect : forall bs K ops,
+  (forall v c, In (v, c) ops -> In (c_type c) G.claim_types) ->
+  forall a, In a (atts (run_ms bs K ops)) ->
+    (exists v0, In (v0, a_body a) ops /\ valid_basic (a_body a) = true /\ batch_gate bs (a_body a) = true) /\
+    forall v, In v (a_votes a) ->
+      exists c, In (v, c) ops /\ valid_basic c = true /\ batch_gate bs c = true /\
+        (effect c = effect (a_body a) \/ (path c <> path (a_body a) /\ sha256 (path c) = sha256 (path (a_body a)))).
+Proof. exact msg_server_votes_lemma. Qed.
+Print Assumptions msg_server_votes_passed_gate_same_effect.
+
+(** Every implementer of the EthereumClaim interface (method sets incl. promoted methods), everything registered
+    for it in the interface registry, handled by the attestation handler or routed by the msg server is a claim
+    type covered by the generated tables — the types all theorems above quantify over — and is known to the model. *)
+Theorem claim_interface_implementers_covered :
+  incl G.claim_impls G.claim_types /\ incl G.claim_registered G.claim_impls /\ incl G.claim_handled G.claim_impls /\
+  incl G.live_types G.claim_handled /\ incl G.claim_types known_claim_types.
+Proof. exact claim_impls_covered_lemma. Qed.
+Print Assumptions claim_interface_implementers_covered.
+
+(** Genesis: after InitGenesis of an exported attestation list every attestation is stored under the key of its
+    stored body and carries the body and votes of exactly one exported attestation. *)
+Theorem genesis_import_keys_are_body_keys : forall K l a, In a (reimport_atts K l) ->
+  well_keyed K a /\ exists a0, In a0 l /\ a_body a = a_body a0 /\ a_votes a = a_votes a0 /\ a_src a = a_src a0.
+Proof. exact reimport_atts_well_keyed_lemma. Qed.
+Print Assumptions genesis_import_keys_are_body_keys.
+
+(** Genesis: a store whose attestations are all keyed by their body survives export / import unchanged. *)
+Theorem genesis_roundtrip_identity : forall K l,
+  (forall a, In a l -> well_keyed K a) -> NoDup (map a_key l) -> reimport_atts K l = l.
+Proof. exact reimport_atts_identity_lemma. Qed.
+Print Assumptions genesis_roundtrip_identity.
+
+(** The pooling property over histories with an export / import of genesis in the middle. *)
+Theorem pooled_votes_same_effect_across_genesis : forall (g g' : gate) K ops1 ops2 i2,
+  (forall v c, In (v, c) (ops1 ++ ops2) -> In (c_type c) G.claim_types) ->
+  forall a, In a (atts (run_g_from g' K (reimport K (run_g g K ops1)) i2 ops2)) ->
+    (exists v0, In (v0, a_body a) (ops1 ++ ops2)) /\
+    forall v, In v (a_votes a) ->
+      exists c, In (v, c) (ops1 ++ ops2) /\
+        (effect c = effect (a_body a) \/ (path c <> path (a_body a) /\ sha256 (path c) = sha256 (path (a_body a)))).
+Proof. exact pooled_votes_across_genesis_lemma. Qed.
+Print Assumptions pooled_votes_same_effect_across_genesis.
+
+(** Attestations stored under a key that is not the key of their body (stored before a change of the hash
+    encoding): a submission changes the votes under a store key only if the submitted claim's own key is that key —
+    so a stale attestation gets no further vote from its own body, under any gate (it is repaired by the next
+    genesis import, [genesis_import_keys_are_body_keys]). *)
+Theorem stale_attestation_not_voted_by_its_body : forall (g : gate) K s i v c a,
+  In a (atts s) -> ~ well_keyed K a -> att_key K c = att_key K (a_body a) ->
+  votes_at (fst (attest_g g K s i v c)) (a_key a) = votes_at s (a_key a).
+Proof. exact stale_not_voted_by_own_body_lemma. Qed.
+Print Assumptions stale_attestation_not_voted_by_its_body.
